@@ -135,10 +135,13 @@ UseSigned == \E supplied \in {"content", "changed"} :
             /\ use' = [supplied |-> supplied]
             /\ result' = IF Verify(obj, supplied) THEN "verified" ELSE Err
 \* which wrong-password variants exist for a password class
-Applicable(pw, w) == CASE w \in {"empty", "shorter", "char"} -> pw # "empty"
+\* ("nulsuffix": the password followed by U+0000 - one 16-bit zero more in front of the terminator; for the empty
+\* password both strings are runs of zeros, which the format's key derivation cannot tell apart)
+Applicable(pw, w) == CASE w \in {"empty", "shorter", "char", "nulsuffix"} -> pw # "empty"
                        [] w = "case" -> pw \in {"ascii", "long"}
                        [] w = "badbyte" -> pw = "badutf8"                        \* another byte that is not UTF-8 either
                        [] w = "lowbyte" -> pw \in {"utf8", "bmp_edge"}      \* every character replaced by its low byte
+                       [] w = "nulpad" -> pw \in {"utf8", "bmp_edge"}       \* as many U+0000 appended as the UTF-8 form has bytes beyond one per character
                        [] OTHER -> TRUE
 UseP12 == \E w \in {"right"} \cup WrongPwd, api \in {"DecodeAll", "Decode", "ToPEM"} :
             /\ (w # "right" => Applicable(obj.pw, w))
